@@ -201,6 +201,40 @@ example :
     (s.slots[1]? = some (.buf ⟨0, 0, 8⟩)) ∧ view s' ⟨0, 0, 8⟩ = view s ⟨0, 0, 8⟩ ∧
     view (run s [.drop 1, .intoMutable 0, .write 0 0 99, .freeze 0]) ⟨0, 0, 8⟩ ≠ view s ⟨0, 0, 8⟩ := by decide
 
+/-- **The source still has the shape the model mirrors.**  The guard conditions and statement
+orders that `Model.lean` hard-codes (offset / uniqueness / deallocation guards of `into_mutable`
+and `into_vec`, custom owners rejected before the reservation is taken, `claim` replacing the
+reservation, the reservation moving through `freeze`, the in-place-or-copy split of the mask
+operators, `into_builder` dropping the array first, the one-shot FFI release and the owner clone
+per imported buffer) and the capacity constants are re-extracted from /repo on every run
+(tools/items/C16.py); an edit to any of them makes its item LOST and this obligation fail. -/
+theorem source_shape_intact :
+    Generated.C16.WITH_CAPACITY_ROUND_lost = false ∧
+    Generated.C16.RESERVE_ROUND_lost = false ∧
+    Generated.C16.RESERVE_GROWTH_lost = false ∧
+    Generated.C16.SHRINK_ROUND_lost = false ∧
+    Generated.C16.ALIGNMENT_X86_64_lost = false ∧
+    Generated.C16.SHAPE_INTO_MUTABLE_lost = false ∧
+    Generated.C16.SHAPE_INTO_MUTABLE_FROM_BYTES_lost = false ∧
+    Generated.C16.SHAPE_FROM_BYTES_lost = false ∧
+    Generated.C16.SHAPE_INTO_VEC_CUSTOM_lost = false ∧
+    Generated.C16.SHAPE_INTO_VEC_LAYOUT_lost = false ∧
+    Generated.C16.SHAPE_INTO_VEC_RESERVATION_lost = false ∧
+    Generated.C16.SHAPE_BYTES_CLAIM_lost = false ∧
+    Generated.C16.SHAPE_MUTABLE_CLAIM_lost = false ∧
+    Generated.C16.SHAPE_INTO_BUFFER_lost = false ∧
+    Generated.C16.SHAPE_TRACKER_DROP_lost = false ∧
+    Generated.C16.SHAPE_BIT_ASSIGN_lost = false ∧
+    Generated.C16.SHAPE_BIT_ASSIGN_COPY_lost = false ∧
+    Generated.C16.SHAPE_INTO_BUILDER_lost = false ∧
+    Generated.C16.SHAPE_INTO_BUILDER_VALUES_lost = false ∧
+    Generated.C16.SHAPE_FFI_DROP_lost = false ∧
+    Generated.C16.SHAPE_FFI_RELEASE_lost = false ∧
+    Generated.C16.SHAPE_FFI_RELEASE_ONCE_lost = false ∧
+    Generated.C16.SHAPE_FFI_EXPORT_CLONES_lost = false ∧
+    Generated.C16.SHAPE_FFI_IMPORT_OWNER_lost = false ∧
+    Generated.C16.SHAPE_FFI_IMPORT_CLONE_lost = false := by decide
+
 /-! ### non-vacuity: non-trivial reachable states -/
 
 /-- a shared standard buffer, one clone dropped, then made mutable, written, frozen, claimed;
